@@ -205,7 +205,7 @@ export function snapshot(ge, parent, tr, opts = {}) {
     }
     const el = {
       k: 'el',
-      tag: node.is,
+      tag: node instanceof ge.Component ? node.tagName : node.is,
       slot: node._$nodeSlot || '',
       ch: c ? chanView(c) : {},
       generics: info ? info.generics : undefined,
